@@ -2,7 +2,7 @@
 import ast
 
 from ..core.constfold import SymRef
-from ..core.program import norm, own_nodes
+from ..core.program import pos, norm, own_nodes
 from ..core.world import world
 from ..rules import generic as G
 
@@ -94,10 +94,18 @@ def rule_tempo_methods(ctx):
                     "values; with return_onset_idxs=True both return a 3-tuple")
     enc = ctx.prog.func(f"{PC}:encode_tempo", "F4c")
     seen = {}
+    methods = ("tempo_by_average", "tempo_by_derivative")
+    fdefs = {}
+    for a in own_nodes(enc.node):
+        if isinstance(a, ast.Assign) and len(a.targets) == 1 and isinstance(a.targets[0], ast.Name) and isinstance(a.value, ast.Name):
+            fdefs.setdefault(a.targets[0].id, set()).add(a.value.id)
     for n in own_nodes(enc.node):
-        if isinstance(n, ast.Assign) and isinstance(n.value, ast.Call) and norm(n.value.func) in ("tempo_by_average", "tempo_by_derivative"):
-            k = len(n.targets[0].elts) if isinstance(n.targets[0], ast.Tuple) else 1
-            seen[norm(n.value.func)] = (k, n)
+        if isinstance(n, ast.Assign) and isinstance(n.value, ast.Call) and isinstance(n.value.func, ast.Name):
+            # called directly, or through a local that the branches bind to the method (`tempo_function = tempo_by_average`)
+            callees = {n.value.func.id} if n.value.func.id in methods else (fdefs.get(n.value.func.id, set()) & set(methods))
+            for c in callees:
+                k = len(n.targets[0].elts) if isinstance(n.targets[0], ast.Tuple) else 1
+                seen[c] = (k, n)
     ctx.check(set(seen) == {"tempo_by_average", "tempo_by_derivative"}, "F4c", "both built-in tempo methods dispatched", func=enc,
               construct="tempo-methods", msg=f"dispatched: {sorted(seen)}")
     for name, (k, node) in seen.items():
@@ -122,7 +130,7 @@ def rule_order(ctx):
         ls = [n for n in own_nodes(f.node) if isinstance(n, ast.Call) and norm(n.func) in ("np.lexsort", "numpy.lexsort")]
         if not ls:
             # two-pass idiom: argsort by pitch, then a *stable* argsort by onset
-            srt = sorted([n for n in own_nodes(f.node) if isinstance(n, ast.Call) and norm(n.func) in ("np.argsort", "numpy.argsort")], key=lambda n: (n.lineno, n.col_offset))
+            srt = sorted([n for n in own_nodes(f.node) if isinstance(n, ast.Call) and norm(n.func) in ("np.argsort", "numpy.argsort")], key=lambda n: pos(n))
             ctx.require(len(srt) >= 2, "ORDER", q, "neither lexsort nor a two-pass argsort found")
             defs = {norm(a.targets[0]): norm(a.value) for a in own_nodes(f.node) if isinstance(a, ast.Assign) and len(a.targets) == 1}
             def keytxt(c):
